@@ -40,12 +40,15 @@ def cfg_class(c):
     return (role, c["dcm"], c["tokm"], c["dse"], n if n <= 5 else "big")
 
 
+MIN_SUPPORT = 4
+
+
 def attribute(check, sigs, maxsize=3):
     """sigs: {signature: {"pass": n, "fail": m, "sample": ...}} -> {key: [fail count, sample, n signatures, size]}.
     A feature set S is *pure* when no executed case whose signature contains S passed.  Failing
     signatures are covered greedily by pure sets (largest number of failing cases first, then the
-    smaller set, then lexicographic order); the key names the covering set.  Sets that explain less
-    than 2% of the failing cases of the check, and signatures that both passed and failed, are
+    smaller set, then lexicographic order); the key names the covering set.  Sets supported by fewer
+    than MIN_SUPPORT failing abstract shapes, and signatures that both passed and failed, are
     reported together under `<check>:sometimes:<features common to all of them>`."""
     feats_of = {s: frozenset(f for f in s.split(",") if f) for s in sigs}
     passing = [feats_of[s] for s, c in sigs.items() if c["pass"] > 0]
@@ -77,28 +80,27 @@ def attribute(check, sigs, maxsize=3):
             e[1], e[3] = c["sample"], len(feats_of[s])
 
     todo = {s for s, c in sigs.items() if c["fail"] > 0 and c["pass"] == 0}
-    threshold = max(1, sum(c["fail"] for c in sigs.values()) // 50)
     mixed = sorted(s for s, c in sigs.items() if c["fail"] > 0 and c["pass"] > 0)
     subsets = {}
     for s in todo:
         F = sorted(feats_of[s])
         subsets[s] = [S for size in range(0, maxsize + 1) for S in itertools.combinations(F, size) if pure(S)]
     while todo:
-        cover = {}
+        cover, support = {}, {}
         for s in todo:
             for S in subsets[s]:
                 cover[S] = cover.get(S, 0) + sigs[s]["fail"]
-        if not cover:
+                support[S] = support.get(S, 0) + 1
+        # a set supported by very few abstract shapes is pure by coincidence
+        cand = [S for S in cover if support[S] >= MIN_SUPPORT or not S]
+        if not cand:
             break
-        best = min(cover, key=lambda S: (-cover[S], len(S), S))
-        if cover[best] < threshold:      # too little support: coincidental purity
-            break
+        best = min(cand, key=lambda S: (-cover[S], len(S), S))
         key = check + (":" + ",".join(best) if best else "")
         for s in sorted(todo):
             if set(best) <= feats_of[s]:
                 add(key, s)
                 todo.discard(s)
-    # signatures that both passed and failed, or that no small pure set explains
     rest = sorted(todo) + mixed
     if rest:
         common = frozenset.intersection(*[feats_of[s] for s in rest])
